@@ -2,17 +2,24 @@
    Strings are lists of bytes.  Executable definitions only.
 
    Resume:  NewComponentTransport(cfg)        error -> state PermanentError, ConnError permanent
-            transport.Connect()               error -> state PermanentError, ConnError permanent
+            transport.Connect()               error -> state PermanentError, the transport's own ConnError
+                                                       (not permanent: refused / timed out dial, cut or
+                                                       unreadable stream header)
               (dial + stream header; returns the id attribute of the server's stream
                header, already XML-unescaped by encoding/xml)
             write "<handshake>" + handshake(id) + "</handshake>"
                                               error -> state StreamError, ConnError NOT permanent
-            stanza.NextPacket                 error -> state PermanentError, ConnError permanent
-              StreamError  -> streamError("conflict", "no auth loop") (state StreamError,
+            stanza.NextPacket                 error -> closeRefused, state PermanentError, ConnError permanent
+                                                       unless the connection itself was lost (connectionLost)
+              StreamError  -> closeRefused, streamError("conflict", "no auth loop") (state StreamError,
                               event carries "conflict" whatever the condition was),
                               ConnError permanent
               Handshake    -> state SessionEstablished, go recv(), nil
-              default      -> state PermanentError, ConnError permanent *)
+              default      -> closeRefused, state PermanentError, ConnError permanent
+   closeRefused: the connection of the failed attempt is closed before Resume returns.
+   The receiver started on success serves THAT connection only (it is handed its transport);
+   every end of the stream it sees (read error, stream error followed by the close, the
+   server's </stream:stream>) leaves the state Disconnected. *)
 From Coq Require Import List NArith Bool.
 From XV Require Import Lib.Sx Model.Sha1 Model.Hex.
 Import ListNotations.
@@ -49,7 +56,9 @@ Inductive reply :=
 | RHandshake                    (* a <handshake> element in jabber:component:accept *)
 | RStreamError (cond : str)     (* <stream:error> with this condition element *)
 | ROther (kind : N)             (* any other packet NextPacket can decode *)
-| RReadError.                   (* NextPacket error: malformed, unknown element, closed *)
+| RReadError                    (* NextPacket error caused by what the server sent: malformed, unknown element *)
+| RCut.                         (* NextPacket error caused by the connection: closed / cut before or inside the answer
+                                   (session.go connectionLost: EOF, "unexpected EOF", a read error) *)
 
 Record env := Env {
   e_pre : pre;
@@ -67,28 +76,39 @@ Record result := Result {
   r_state : cstate;             (* CurrentState when Connect returns *)
   r_recv : bool;                (* receive loop started (go c.recv()) *)
   r_written : list str;         (* what was written on the transport *)
-  r_events : list event }.
+  r_events : list event;
+  r_open : bool }.              (* a connection is left open, on which Send writes, when Connect returns *)
 
 Definition conflict : str := [99; 111; 110; 102; 108; 105; 99; 116].   (* "conflict" *)
 
+(* every failure exit leaves nothing to send on: no transport (bad address), a transport that
+   never connected or closed itself (StartStream), a writer that has just failed, or - after
+   the handshake was written - the connection Resume closes itself (closeRefused) *)
 Definition fail_with (perm : bool) (s : cstate) (written : list str) (ev : str) : result :=
-  Result (ErrConn perm) s false written [(s, ev)].
+  Result (ErrConn perm) s false written [(s, ev)] false.
 
 Definition component_connect (secret : str) (e : env) : result :=
   match e_pre e with
   | PBadTransport => fail_with true PermanentErrorState [] []
-  | PConnectFail => fail_with true PermanentErrorState [] []
+  | PConnectFail => fail_with false PermanentErrorState [] []
   | PConnected id =>
       let hs := handshake_element id secret in
       if negb (e_write_ok e) then fail_with false StreamErrorState [] []
       else
         match e_reply e with
         | RReadError => fail_with true PermanentErrorState [hs] []
+        | RCut => fail_with false PermanentErrorState [hs] []
         | RStreamError _ => fail_with true StreamErrorState [hs] conflict
-        | RHandshake => Result ErrNil Established true [hs] [(Established, [])]
+        | RHandshake => Result ErrNil Established true [hs] [(Established, [])] true
         | ROther _ => fail_with true PermanentErrorState [hs] []
         end
   end.
+
+(* the state once an established session has ended, by whichever side: the receive loop
+   (Model/Recv.v's component loop) reports every end of the stream as Disconnected; an
+   attempt that never was established keeps the state Connect left *)
+Definition state_after_end (r : result) : cstate :=
+  if r_recv r then Disconnected else r_state r.
 
 (* "Stanzas are routed" is not modelled beyond [r_recv]: the receive loop (Model/Recv.v,
    C05/C12) routes what it reads; that a stanza sent after the reply reaches a handler
